@@ -288,6 +288,7 @@ def gen_case(rng, platform):
     groups = rng.random() < 0.4
     heading = rng.choice(["", "", "= ", "## "])
     numbered = rng.random() < 0.4
+    shuffled_numbers = numbered and rng.random() < 0.3
     lines = []
     descs = []
     members = {}
@@ -295,7 +296,7 @@ def gen_case(rng, platform):
     seq = 0
     while len(lines) < n:
         if numbered:
-            seq += rng.choice([1, 5, 10])
+            seq = seq + rng.choice([1, 5, 10]) if not shuffled_numbers else rng.randint(1, 5000)
         if rng.random() < 0.18:
             lines.append(grammar.gen_remark(rng, seq=seq, heading=heading if heading and rng.random() < 0.6 else None,
                                             uniq=f"u{len(lines)}" if rng.random() < 0.9 else "")["text"])
